@@ -59,20 +59,20 @@ def sp(xs):
     return " ".join(map(str, xs))
 
 
-def gen_api(rng, i, prec=None, psv=None):
+def gen_api(rng, i, prec=None, psv=None, wide=None):
     prec = prec or rng.range(2, 16)
     psv = psv or rng.range(1, 7)
     pt = 0 if rng.chance(1, 2) else rng.range(0, prec - 1)
-    w = rng.choice(WIDTHS)
-    h = rng.choice([1, 1, 2, 3, 4, 5, 8])
+    w = wide or rng.choice(WIDTHS)
+    h = rng.choice([1, 1, 2, 3, 4, 5, 8]) if not wide else rng.choice([2, 3])
     kind = "tj" if rng.chance(1, 2) else "lj"
-    nc = rng.choice([1, 3, 3, 4]) if kind == "tj" else rng.choice([1, 2, 3, 3, 4])
-    rmode = rng.choice([0, 0, 1, 1, 2])
+    nc = rng.choice([1, 3, 3, 4]) if kind == "tj" else rng.choice([1, 2, 3, 3, 4, 4, rng.range(5, 10)])
+    rmode = rng.choice([0, 0, 1, 1, 2]) if not wide else 1
     rval = 0
     ri = 0
     if rmode == 1:
         rval = rng.choice([1, 1, 2, 3, h, h + 1])
-        ri = rval * w
+        ri = min(rval * w, 65535)       # per_scan_setup: MIN(restart_in_rows * MCUs_per_row, 65535)
     elif rmode == 2:
         if rng.chance(5, 6):
             rval = w * rng.range(1, 3)
@@ -95,6 +95,13 @@ def gen_api(rng, i, prec=None, psv=None):
         elif scanmode == 3:
             p2 = (rng.range(1, 7), 0 if rng.chance(1, 2) else rng.range(0, prec - 1))
             pairs = [(psv, pt)] + [p2] * (nc - 1)
+        if nc > 4:          # more components than fit one scan: JCS_UNKNOWN with a scan script
+            pf = 1
+            scanmode = rng.choice([2, 4])
+            pairs = []
+            for g in range(0, nc, 3 if scanmode == 4 else 1):
+                p = (rng.range(1, 7), 0 if rng.chance(1, 2) else rng.range(0, prec - 1))
+                pairs += [p] * (min(3, nc - g) if scanmode == 4 else 1)
     pairs = (pairs + [pairs[-1]] * nc)[:nc]
     ck = KINDS[i % len(KINDS)] if rng.chance(1, 2) else rng.choice(KINDS)
     planes = [content(rng, ck, prec, w, h) for _ in range(nc)]
@@ -260,7 +267,7 @@ def run(ctx):
     ctx.regen(["Lossless"])
     ctx.prove()
     drv = ctx.model_driver()
-    flavours = ["simd"] if not ctx.thorough() else ["simd", "asan"]
+    flavours = ["simd", "asan"]
     exes = {}
     for fl in flavours:
         exes[fl] = {"api": ctx.cc("c02", ["c02.c"], fl, libs=("turbojpeg",))}
@@ -282,7 +289,7 @@ def run(ctx):
                 if l and not l.startswith("#"):
                     cases.append(classify(l))
 
-    napi = ctx.n(620, 40000)
+    napi = ctx.n(1500, 40000)
     i = 0
     for prec in range(2, 17):          # every precision x predictor at least once
         for psv in range(1, 8):
@@ -293,14 +300,20 @@ def run(ctx):
         line, kind, meta = gen_api(rng, i)
         cases.append((line, "api", kind, meta))
         i += 1
-    for _ in range(ctx.n(60, 3000)):
+    # wide rows: restart_in_rows * width above / below the 16-bit DRI limit
+    for wide in [65500, 40000, 21845] + ([32768, 21846, 13107, 65499] if ctx.thorough() else []):
+        line, kind, meta = gen_api(rng, i, wide=wide)
+        cases.append((line, "api", kind, meta))
+        i += 1
+    for _ in range(ctx.n(200, 3000)):
         line, kind, meta = gen_inj(rng)
         cases.append((line, "api", kind, meta))
     if ctx.thorough():                 # every difference value -131072..131071 once
-        vals = list(range(-131072, 131072))
-        cases.append(("inj 16 512 512 1 0 | 1 0 | " + sp(vals), "api", "inj",
-                      {"planes": [vals], "nc": 1, "key": ("inj-exhaustive",)}))
-    for k in range(ctx.n(1500, 60000)):
+        for k in range(64):
+            vals = list(range(-131072 + 4096 * k, -131072 + 4096 * (k + 1)))
+            cases.append(("inj 16 64 64 1 %d | %d 0 | %s" % (64 * (k % 3), 1 + k % 7, sp(vals)), "api", "inj",
+                          {"planes": [vals], "nc": 1, "key": ("inj-exhaustive", k)}))
+    for k in range(ctx.n(4000, 60000)):
         line, target, kind, meta = gen_kernel(rng, k)
         cases.append((line, target, kind, meta))
     return run_cases(ctx, cases, exes, drv, flavours)
